@@ -6,8 +6,10 @@ import dataclasses
 import difflib
 import functools
 import heapq
+import io
 import re
 import textwrap
+import tokenize
 from types import MappingProxyType
 from typing import (
     Any,
@@ -440,17 +442,16 @@ def _do_rewrite(source: str, rewrite: _Rewrite, *, fix_function_name: str = "") 
     indent = getattr(old, "col_offset", getattr(new, "col_offset", 0))
     indents = {**{i: indent for i in range(len(lines))}, 0: len(code) - len(code.lstrip(" "))}
 
+    # Lines that begin inside a string literal keep their indentation, it is part of the string.
+    # That goes for triple quoted strings and for lines continued with a backslash inside a string.
+    string_token_types = {tokenize.STRING, getattr(tokenize, "FSTRING_MIDDLE", tokenize.STRING)}
     try:
-        new_code_ast = core.parse(new_code)
-    except SyntaxError:
-        pass  # new_code is not necessarily valid python syntax in all cases
-    else:
-        for node in core.walk(new_code_ast, (ast.Constant(value=str), ast.JoinedStr)):
-            node_code = core.get_code(node, new_code)
-            quote = node_code.lstrip("bBfFrRuU")[:3]  # Any string prefix, e.g. rb, F, Rf, u
-            if quote in ("'''", '"""') and node_code.endswith(quote):
-                for lineno in range(node.lineno, node.end_lineno):
+        for token in tokenize.generate_tokens(io.StringIO(new_code).readline):
+            if token.type in string_token_types:
+                for lineno in range(token.start[0], token.end[0]):
                     indents[lineno] = 0
+    except (tokenize.TokenError, SyntaxError):
+        pass  # new_code is not necessarily valid python syntax in all cases
 
     new_code = "".join(
         f"{' ' * indents[i]}{code}".rstrip() + ("\n" if code.endswith("\n") else "")
